@@ -399,7 +399,8 @@ def concurrency(ctx, prop, mod):
         for row in rows:
             f.write(json.dumps(row) + '\n')
     sres = os.path.join(ctx.tmp, 'sched.json')
-    scmd = [ctx.bin, 'sched', '-rows', rf, '-out', sres, '-seed', str(ctx.seed), '-offsets', '2' if ctx.tier == 'quick' else '6']
+    scmd = [ctx.bin, 'sched', '-rows', rf, '-out', sres, '-seed', str(ctx.seed), '-offsets', '2' if ctx.tier == 'quick' else '4',
+            '-maxper', '0' if ctx.tier == 'quick' else '800']   # thorough: pairs with more than 800 schedules are sampled evenly (seeded)
     mod.run(scmd, 3000, env=env, ok=(0, 66))
     sr = json.load(open(sres))
     ctx.cov.update(schedules_enumerated=len(rows), schedule_max_calls=maxcalls, request_pairs_scheduled=sr['pairs'],
